@@ -100,6 +100,24 @@ def add_iter(cr, D, zb, kind):
     cr.add("O02.iter(D=%d,%s)" % (D, kind), "O02.iter", D, ["m", "n", "j1", "j2", "j3"], body, wants, cases=cases)
 
 
+def add_iter_empty(cr, D, zb):
+    """zero-size corners of begin() / end(): an empty leading extension (whatever the index base) and, for D > 1, an empty inner extension: the two
+    iterators delimit exactly size() positions and compare equal when there is none"""
+    v = vs.root(D, zb)
+    body = ("out[0] = v.end() - v.begin(); out[1] = (v.begin() == v.end()) ? 1 : 0; out[2] = std::as_const(v).end() - std::as_const(v).begin(); "
+            "out[3] = v.size(); out[4] = (v.begin() + v.size() == v.end()) ? 1 : 0; out[5] = (v.begin() != v.end()) ? 1 : 0; out[6] = (v.begin() < v.end()) ? 1 : 0;")
+    cases = [dict({"z0": P.const(0)}, __name="empty leading extension", __signs={}, __z0=P.const(0))]
+    if D >= 2:
+        cases.append(dict({"z1": P.const(0), "z0": 1 + A("y0")}, __name="empty inner extension", __signs={"y0": NONNEG}, __z0=1 + A("y0")))
+
+    def wants(case, env):
+        z0 = case["__z0"]
+        none = z0.is_zero()
+        return {(0, "end-begin"): z0, (1, "begin==end"): P.const(1 if none else 0), (2, "const end-begin"): z0, (3, "size"): z0,
+                (4, "begin+size==end"): P.const(1), (5, "begin!=end"): P.const(0 if none else 1), (6, "begin<end"): P.const(0 if none else 1)}
+    cr.add("O02.iter.empty(D=%d)" % D, "O02.iter", D, [], body, wants, cases=cases)
+
+
 def add_cursor(cr, D):
     """cursors (home()): indexing / call form / += of an index tuple designate the element at those offsets from the view's first element; the const
     cursor designates the same addresses; stride<k>() is the k-th stride (zero-based views)"""
@@ -302,6 +320,24 @@ def add_flat(cr, D, zb, fam="O02.flat", one_key=None):
         cr.add("%s.ends(D=%d)" % (fam, D), fam, D, [], body2, wants2, cases=[dict(env, __signs={"y%d" % i: NONNEG for i in range(D)})])
 
 
+def add_flat_empty(cr, D, fam="O02.flat"):
+    """zero-size corners: a view with a zero extent in one dimension (and non-zero extents elsewhere) has an empty flat range that can be formed,
+    measured, compared and moved by 0 without a trap.  The index arithmetic divides by sub-extent element counts; the optimiser may fold a division
+    by a value it can prove zero (undefined behaviour), so this family is compiled with the front end's division check
+    (-fsanitize=integer-divide-by-zero -fsanitize-trap): the check survives as a branch to a trap, which the evaluation reports."""
+    v = vs.root(D, True)
+    for zd in range(D):
+        envz0 = {"z%d" % zd: P.const(0)}
+        envz0.update({"z%d" % i: 1 + A("y%d" % i) for i in range(D) if i != zd})
+        body5 = ("auto&& es = v.elements(); out[0] = es.size(); out[1] = es.end() - es.begin(); out[2] = (es.begin() == es.end()) ? 1 : 0; "
+                 "{ auto it = es.begin(); it += 0; out[3] = it - es.begin(); auto jt = es.end(); jt -= 0; out[4] = es.end() - jt; } "
+                 "{ auto const& cv = v; out[5] = cv.elements().size(); out[6] = (cv.elements().begin() == cv.elements().end()) ? 1 : 0; }")
+        cr.add("%s.empty(D=%d,zero extent in dimension %d)" % (fam, D, zd), fam, D, [], body5,
+               {(0, "size"): P.const(0), (1, "end-begin"): P.const(0), (2, "begin==end"): P.const(1), (3, "(begin+=0)-begin"): P.const(0),
+                (4, "end-(end-=0)"): P.const(0), (5, "const size"): P.const(0), (6, "const begin==end"): P.const(1)},
+               cases=[dict(envz0, __signs={"y%d" % i: NONNEG for i in range(D)})])
+
+
 def add_canon(cr, D):
     """extensions_t<D>::next_canonical / prev_canonical / to_linear / from_linear on symbolic digits, all carry patterns"""
     exts = ", ".join("multi::iextension{f%d, f%d + z%d}" % (i, i, i) for i in range(D))
@@ -479,6 +515,7 @@ def run(tier):
         for D in range(1, maxd + 1):
             for kind in kinds:
                 add_iter(cr, D, zb, kind)
+            add_iter_empty(cr, D, zb)
         for D in range(1, (3 if tier == "thorough" else 2) + 1):
             if zb:
                 add_flat(cr, D, zb)
@@ -487,6 +524,11 @@ def run(tier):
                 add_cursor(cr, D)
         cr.compile(nshards=8, extra_prelude=EXTRA)
         cr.check()
+    cr = viewops.CustomRun(rep, "C02", True, wd, "empty")
+    for D in range(2, (3 if tier == "thorough" else 2) + 1):
+        add_flat_empty(cr, D)
+    cr.compile(nshards=2, defines=("-DNDEBUG", "-fsanitize=integer-divide-by-zero", "-fsanitize-trap=integer-divide-by-zero"), extra_prelude=EXTRA)
+    cr.check()
     cr = viewops.CustomRun(rep, "C02", True, wd, "canon")
     for D in range(1, maxd + 1):
         add_canon(cr, D)
